@@ -22,7 +22,8 @@ MANIFEST = dict(
          ' The length-skeleton language covers counted and while loops, iterator cursors, zip units, enumerate, windows of any block size (symbolic residue), single-byte folds, '
          'multi-statement helpers, stripped inputs (fixed-point argument), bitwise (table-free) steps and binascii.crc_hqx (library contract). A routine outside that language '
          '(register kept in an object, engines, generators) is not proved for all lengths: rule O6 then decides it exactly for every input of 47 lengths up to 129 bytes, '
-         'and the evidence says so.',
+         'and the evidence says so.'
+         ' For routines decided by O6 the result of a call does not depend on earlier calls, including calls that ended in an exception (rule O6h: histories in one interpreter).',
     note='trusted: CPython ast, the checker\'s GF(2) bit-vector evaluator, the transcription of the two bitwise CRC definitions',
     design_ref='DESIGN.md section 4 C18')
 ONE = '1'
